@@ -31,11 +31,17 @@ def key_uses(F, fi, cparam: str, kparam: str) -> List[Tuple[Optional[bool], Opti
     out = []
     for p in SymExec(F, fi).run():
         isdict = isdec = None
+        isslice = False
         for c, v, _ in p.assumptions:
             if isinstance(c, tuple) and c[:2] == ('pcall', 'isinstance') and c[2][0] == Cn and om.mentions(c[2][1], DICT):
                 isdict = v
             if isinstance(c, tuple) and c[:2] == ('pcall', 'isinstance') and c[2][0] == Kn:
-                isdec = v
+                if 'slice' in str(c[2][1]) and 'Decimal' not in str(c[2][1]):
+                    isslice = isslice or v      # a slice object is a range of positions, not a key: nothing to cast
+                else:
+                    isdec = v
+        if isslice:
+            continue
 
         def nf(t):
             return _subst(A.strip_ids(freeze(t)), Kn, 'K')
